@@ -49,7 +49,7 @@ class C19(Profile):
               'cross_category_name', 'extension_name_form', 'failed_registration_checked', 'parse_registered_custom',
               'parse_unregistered_strict_refused', 'parse_unregistered_custom_mode_dict', 'version_scoped_negative',
               'custom_roundtrip', 'custom_new_version', 'custom_store_roundtrip', 'custom_marking_used', 'custom_extension_used',
-              'either_name']
+              'either_name', 'extension_name_taken']
     rule = ('plans: 20-60 ops: registrations through the four decorators of both spec versions with names from a pool of fresh, already '
             'taken (built-in, earlier in the run, other category) and rule-breaking names and with legal / rule-breaking property lists, the '
             'extension_name form; interleaved with parse (strict/custom mode, version named or not), class_for_type, construction, '
@@ -180,12 +180,16 @@ class C19(Profile):
         ver, kind, name = op['ver'], op['kind'], op['name']
         V = s.v21 if ver == '2.1' else s.v20
         props, pclass = self.build_props(op)
+        if kind == 'extension' and ver == '2.1' and op['a'] % 4 == 0 and name.endswith('-ext'):
+            name = 'extension-definition--' + C.mkuuid(op['a'] % 3, 'c19ext')
         nclass = name_class(name, kind, ver)
         taken = self.taken(ver, kind, name)
         ext_name = None
         if op.get('ext_name') and ver == '2.1' and kind in ('object', 'observable'):
-            ext_name = 'extension-definition--' + C.mkuuid(op['n'], 'c19ext')
+            # a small pool of extension-definition ids, so that the same id is asked for again later
+            ext_name = 'extension-definition--' + C.mkuuid(op['a'] % 3 if op['a'] % 5 else op['n'], 'c19ext')
             world.probe('extension_name_form')
+
         # ---- expectation ----
         expect = 'ok'
         why = ''
@@ -200,6 +204,9 @@ class C19(Profile):
             expect, why = 'refused', 'ref-named-nonref'
         elif pclass.startswith('bad21') and ver == '2.1':
             expect, why = 'refused', 'propname/' + pclass[6:]
+        elif ext_name and ext_name in self.model[ver]['extensions']:
+            expect, why = 'refused', 'duplicate-extension-name'
+            world.probe('extension_name_taken')
         elif pclass == 'empty' and kind in ('extension',):
             expect, why = 'refused', 'empty-extension'
         elif pclass == 'empty':
